@@ -246,6 +246,28 @@ func genMux(p *simkit.Plan, r *simkit.Rand, tier string) {
 		}
 	}
 	if prof == "stall" && r.Chance(1, 5) {
+		// A reader consumes data and half-closes its own direction right away,
+		// over a congested carrier (its window increments are still waiting for
+		// a write buffer); the peer then needs that credit to go on writing.
+		slot := 80
+		side := simkit.Pick(r, sides)
+		ensureOpen(slot)
+		c["wbuf"], c["linkcap"], c["sched_stall"] = 1, int64(simkit.Pick(r, []int{8, 16})), 0
+		w := int(c["window"])
+		if side == "B" {
+			w = int(c["window_b"])
+		}
+		if w >= 2 && w <= 1000 {
+			rd, wr := readActor(side, slot), writeActor(other[side], slot)
+			add(wr, "write", int64(slot), int64(w))
+			add(rd, "read", int64(slot), int64(w))
+			add(rd, "closewrite", int64(slot))
+			add(wr, "write", int64(slot), int64(w))
+			add(rd, "read", int64(slot), int64(w))
+			add(rd, "read", int64(slot), int64(w))
+		}
+	}
+	if prof == "stall" && r.Chance(1, 5) {
 		// Data that arrives at the very instant a blocked reader's deadline
 		// expires, and a second read afterwards (the deadline is still the
 		// same and long past: it must not block).
